@@ -115,3 +115,41 @@ def check_matching(pred, ref, metric, thr, m2o, lmap: dict):
                 tie = True
     exact_hit = any(s == thr for s in cands.values())
     return fails, fragile, {"competing": comp, "tie": tie, "exact_hit": exact_hit, "n_cands": len(cands), "n_elig": len(elig)}
+
+
+def components(arr: np.ndarray, full: bool, label_aware: bool):
+    """independent flood fill: list of components (frozensets of coordinates) of the non-zero voxels"""
+    fg = {tuple(c): int(arr[tuple(c)]) for c in np.argwhere(arr != 0)}
+    nd = arr.ndim
+    if full:
+        offs = [o for o in itertools.product((-1, 0, 1), repeat=nd) if any(o)]
+    else:
+        offs = []
+        for ax in range(nd):
+            for s in (-1, 1):
+                o = [0] * nd
+                o[ax] = s
+                offs.append(tuple(o))
+    seen, comps = set(), []
+    for start in sorted(fg):
+        if start in seen:
+            continue
+        comp, stack = set(), [start]
+        seen.add(start)
+        while stack:
+            c = stack.pop()
+            comp.add(c)
+            for o in offs:
+                n = tuple(a + b for a, b in zip(c, o))
+                if n in fg and n not in seen and (not label_aware or fg[n] == fg[c]):
+                    seen.add(n)
+                    stack.append(n)
+        comps.append(frozenset(comp))
+    return comps
+
+
+def partition_of(lab: np.ndarray):
+    d = {}
+    for c in np.argwhere(lab != 0):
+        d.setdefault(int(lab[tuple(c)]), set()).add(tuple(c))
+    return d
